@@ -338,6 +338,23 @@ def gen_cases(rng, tier):
         add("large", "flip %s N" % A(s))
         if any(e > 1 for e in s): add("large", "squeeze %s" % A(s))
         add("large", "atleast %s I:%d" % (A(s), rng.randint(0, 6)))
+    # ---------------- high dimensions (6..8): beyond the dimension the moveaxis sweep covers, so that the model the
+    # all-dimension theorems speak about is tied to the code there too (extents 1..2 keep the element count small)
+    for _ in range(150 if quick else 1500):
+        d = rng.randint(6, 8)
+        s = tuple(rng.choice([1, 2, 2, 3]) for _ in range(d))
+        if count(s) > 1500: continue
+        a, b = rng.randint(-d, d - 1), rng.randint(-d, d - 1)
+        add("high_dim", "moveaxis %s I:%d I:%d" % (A(s), a, b))
+        add("high_dim", "moveaxis_order S:%s %s I:%d I:%d" % (rng.choice(["vec", "veci"]), L(s), a, b))
+        add("high_dim", "swapaxes %s I:%d I:%d" % (A(s), a, b))
+        k = rng.randint(1, d)
+        src = signed(rng.sample(range(d), k), d, rng); dst = signed(rng.sample(range(d), k), d, rng)
+        add("high_dim", "moveaxis %s %s %s" % (A(s), L(src), L(dst)))
+        add("high_dim", "moveaxis_order S:%s %s %s %s" % (rng.choice(["vec", "veci"]), L(s), L(src), L(dst)))
+        p = list(range(d)); rng.shuffle(p)
+        add("high_dim", "transpose S:veci %s %s" % (A(s), L(signed(p, d, rng))))
+        add("high_dim", "flip %s I:%d" % (A(s), rng.randint(-d, d - 1)))
     # ---------------- malformed (outside the quantifier: spec 'unspecified'; kept so that the model's accept is exercised)
     for _ in range(120 if quick else 600):
         s = rng.choice(shapes); n = len(s); c = count(s)
